@@ -16,6 +16,10 @@ type Built struct {
 	Receipts []*types.Receipt
 	Included []*types.Transaction
 	Skipped  []string // txs refused by ApplyTransaction (error text), as the worker skips them
+	// StateErr: the error the block's StateDB memorised while the block was executed (StateDB.Error(): database read
+	// errors and - the one that matters - a failed update of the staking trie).  Nothing on the build or import path
+	// looks at it: the block is sealed and stored all the same.
+	StateErr error
 }
 
 // Build assembles the next block on node n exactly the way
@@ -117,6 +121,7 @@ func (n *Node) BuildWith(coinbase common.Address, txs []*types.Transaction, edit
 		return nil, fmt.Errorf("WriteBlockWithState: %v", err)
 	}
 	out.Block = block
+	out.StateErr = st.Error()
 	return out, nil
 }
 
